@@ -321,6 +321,20 @@ def _popen_streams_buffered():
     return "true" if ok else "false"
 
 
+@fact("socket_io_blocking", "bool", "false")
+def _socket_io_blocking():
+    """the socket a SocketIO works on is a plain blocking one: created with socket.socket(AF_INET, SOCK_STREAM) and connected with
+    connect(); no time-out is ever set (a time-out would turn a silent peer into an end of stream, or cut a slow sendall short)"""
+    f = find("gateway_socket.py", "create_io")
+    t = _src(f)
+    ok = "sock = socket.socket(socket.AF_INET, socket.SOCK_STREAM)" in t and "io = SocketIO(sock, execmodel)" in t and "sock.connect((host, port))" in t
+    src = open(os.path.join(SRC, "gateway_socket.py")).read()
+    ok = ok and "settimeout" not in src and "create_connection" not in src and "setdefaulttimeout" not in src and "setblocking" not in src
+    srv = open(os.path.join(SRC, "script", "socketserver.py")).read()
+    ok = ok and "settimeout" not in srv and "setdefaulttimeout" not in srv
+    return "true" if ok else "false"
+
+
 @fact("socket_write_shape", "wshape", "WOther")
 def _socket_write_shape():
     f = find("gateway_socket.py", "SocketIO.write")
@@ -669,6 +683,12 @@ def _schedulexec_shape_ok():
     src = unparse(f)
     i = [src.find(x) for x in ("self._executetask_complete.wait(timeout=1)", "channel.close(MAIN_THREAD_ONLY_DEADLOCK_TEXT)", "self._executetask_complete.clear()", "self._execpool.spawn(self.executetask")]
     ok = all(k >= 0 for k in i) and i == sorted(i) and "if not self._executetask_complete.wait(timeout=1)" in src
+    # the expired wait ALWAYS answers with the deadlock error and returns (no further condition, no second wait)
+    body = [n for n in f.body if not (isinstance(n, ast.Expr) and isinstance(getattr(n, "value", None), ast.Constant))]
+    ok = ok and len(body) == 3 and isinstance(body[0], ast.If) and unparse(body[0].test) == "self._execpool.execmodel.backend == 'main_thread_only'"
+    inner = [unparse(n) for n in body[0].body if not isinstance(n, ast.Assert)] if ok else []
+    ok = ok and inner == ["if not self._executetask_complete.wait(timeout=1):\n    channel.close(MAIN_THREAD_ONLY_DEADLOCK_TEXT)\n    return", "self._executetask_complete.clear()"]
+    ok = ok and unparse(body[1]) == "sourcetask_ = loads_internal(sourcetask)" and unparse(body[2]) == "self._execpool.spawn(self.executetask, (channel, sourcetask_))"
     sv = unparse(find("gateway_base.py", "WorkerGateway.serve"))
     ok = ok and "self._executetask_complete = self.execmodel.Event()" in sv and "self._executetask_complete.set()" in sv
     return "true" if ok else "false"
